@@ -1,5 +1,6 @@
 import Cutadapt.Proofs.StepsDemux
 import Cutadapt.Proofs.StepsShape
+import Cutadapt.Generated.Demux
 /-! # C15 — demultiplexing puts every read into the file of its adapter
 
 Model: `Cutadapt.Pipeline` (`stepS`/`stepP` on `Step.demux`, `Step.combDemux`; `lookupLast`), `Cutadapt.Assembly.makeSteps`.
@@ -376,4 +377,72 @@ theorem cli_demux_partition {o : Opts} {out : String} {names : List String} {ste
   refine ⟨(front o).2 ++ simpleSteps o, names.zipIdx (front o).1.writers.length, (front o).1.writers.length + names.length,
     (front o).1.writers.length, evsS, ?_, rfl, h1, h2⟩
   rw [hlen]
+/-! ## Demultiplexing as the real program does it (regenerated from the working tree on every run) -/
+
+def sameSet (a b : List String) : Bool := a.all (b.contains ·) && b.all (a.contains ·) && a.length == b.length
+
+/-- where reads without adapter go: the `unknown` file, the `--untrimmed-output` file, or nowhere (`--discard-untrimmed`) -/
+def restName : String → List String
+  | "plain" => ["unknown"]
+  | "untrimmed" => ["<untrimmed>"]
+  | _ => []
+
+/-- **documented**: one file per adapter *name* (a name given twice is one file; two names for one sequence are two files), plus the rest file -/
+def docFiles (lst : List (String × String)) (mode : String) : List String := (lst.map (·.1)).eraseDups ++ restName mode
+
+def probeSeq : String → String
+  | "p1" => "S1" | "p2" => "S2" | "p3" => "S3" | _ => ""
+
+/-- **documented**: a read goes to the file named after the adapter found in it (the first given among adapters with that sequence) -/
+def docRoute (lst : List (String × String)) (mode probe : String) : List String :=
+  match lst.find? (fun p => p.2 == probeSeq probe) with
+  | some p => [p.1]
+  | none => restName mode
+
+/-- **`{name}`: the files the real program creates and the file each probe read is written to are the documented ones** — for distinct names, one
+    sequence under two names, one name for two sequences, three names, a single adapter; with `unknown`, `--discard-untrimmed` and
+    `--untrimmed-output` (`demux_writers_opened` and `demux_routing` state the same of the model for all option records and reads). -/
+theorem generated_demux_files_and_routing :
+    ∀ row ∈ Generated.demuxSingle, ∃ lst, Generated.demuxLists[row.1]? = some lst ∧
+      sameSet row.2.2.1 (docFiles lst row.2.1) = true ∧ ∀ pr ∈ row.2.2.2, pr.2 = docRoute lst row.2.1 pr.1 := by
+  have h : ∀ row ∈ Generated.demuxSingle,
+      (match Generated.demuxLists[row.1]? with
+       | some lst => sameSet row.2.2.1 (docFiles lst row.2.1) && row.2.2.2.all (fun pr => pr.2 == docRoute lst row.2.1 pr.1)
+       | none => false) = true := by decide
+  intro row hr
+  have := h row hr
+  split at this
+  · rename_i lst hl
+    simp only [Bool.and_eq_true, List.all_eq_true, beq_iff_eq] at this
+    exact ⟨lst, hl, this.1, this.2⟩
+  · cases this
+
+def combKey (a b : Option String) : String := a.getD "unknown" ++ "-" ++ b.getD "unknown"
+
+/-- **documented**, for R1 adapters `a`, `b` and R2 adapters `x`, `y`: a pair of files for every combination of names, and — unless
+    `--discard-untrimmed` — for every combination with `unknown` -/
+def docCombFiles (mode : String) : List String :=
+  let full := ["a", "b"].flatMap fun a => ["x", "y"].map fun b => combKey (some a) (some b)
+  let part := if mode == "plain" then
+      [combKey none none] ++ ["x", "y"].map (fun b => combKey none (some b)) ++ ["a", "b"].map (fun a => combKey (some a) none) else []
+  (full ++ part).flatMap fun k => [k ++ ".1", k ++ ".2"]
+
+/-- the adapters found in the probe pairs: R1 carries S1 (`a`) / S2 (`b`), R2 carries S3 (`x`) / S1 (`y`) -/
+def probePair : String → Option String × Option String
+  | "q11" => (some "a", some "x")
+  | "q12" => (some "a", some "y")
+  | "q20" => (some "b", none)
+  | "q01" => (none, some "x")
+  | _ => (none, none)
+
+def docCombRoute (mode probe : String) : List String :=
+  let k := probePair probe
+  if mode != "plain" && (k.1.isNone || k.2.isNone) then [] else [combKey k.1 k.2 ++ ".1", combKey k.1 k.2 ++ ".2"]
+
+/-- **`{name1}`/`{name2}`: files and routing of the real program are the documented ones** (`comb_writers_opened`, `comb_routing` for the model) -/
+theorem generated_comb_files_and_routing :
+    ∀ row ∈ Generated.demuxComb,
+      sameSet row.2.1 (docCombFiles row.1) = true ∧ ∀ pr ∈ row.2.2, pr.2 = docCombRoute row.1 pr.1 := by
+  decide
+
 end Cutadapt.C15
